@@ -151,3 +151,40 @@ func AddUniqueIDs(der []byte, issuerID, subjectID []byte) ([]byte, bool) {
 	}
 	return wrap(0x30, append(append(wrap(0x30, newTBS), top[1].full...), top[2].full...)), true
 }
+
+// ReplaceSPKI rewrites a certificate issued by an RSA key with SHA-256 so that its body carries another
+// subjectPublicKeyInfo (complete DER of the SEQUENCE), and signs the new body with the issuer's pool key: a
+// well-formed, validly issued certificate for a key type crypto/x509 cannot issue itself.
+func ReplaceSPKI(der, spki []byte, issuerRSAKey string) ([]byte, bool) {
+	cert, rest, ok := readTLV(der)
+	if !ok || len(rest) != 0 || cert.tag != 0x30 {
+		return nil, false
+	}
+	top := children(cert.content)
+	if len(top) != 3 {
+		return nil, false
+	}
+	tbs := children(top[0].content)
+	if len(tbs) < 7 || tbs[0].tag != 0xa0 {
+		return nil, false
+	}
+	var newTBS []byte
+	for i, c := range tbs {
+		if i == 6 {
+			newTBS = append(newTBS, spki...)
+		} else {
+			newTBS = append(newTBS, c.full...)
+		}
+	}
+	body := wrap(0x30, newTBS)
+	sig, err := signPKCS1SHA256(issuerRSAKey, body)
+	if err != nil {
+		return nil, false
+	}
+	return wrap(0x30, append(append(append([]byte{}, body...), top[1].full...), wrap(0x03, append([]byte{0}, sig...))...)), true
+}
+
+// SPKI builds a subjectPublicKeyInfo from the DER of its algorithm identifier's content (OID and parameters) and the key bits.
+func SPKI(algContent, keyBits []byte) []byte {
+	return wrap(0x30, append(wrap(0x30, algContent), wrap(0x03, append([]byte{0}, keyBits...))...))
+}
